@@ -243,7 +243,12 @@ func nanoRandomCase(r *Rng, s *Stream) *nanoCase {
 	if c.AddSource {
 		c.ZeroPC = r.Chance(20)
 	}
-	for i, n := 0, r.Intn(6); i < n; i++ {
+	nChain := r.Intn(6)
+	if r.Chance(8) {
+		nChain = 7 + r.Intn(14) // deep chains: 7..20 derivations
+		s.Count("chain.deep")
+	}
+	for i, n := 0, nChain; i < n; i++ {
 		if r.Chance(35) {
 			name := textKey(r)
 			if r.Chance(10) {
